@@ -136,11 +136,11 @@ func (prog *Prog) Load(src io.Reader) (err error) {
 	if err != nil {
 		return fmt.Errorf("name size: %w", err)
 	}
-	p, err := r.Peek(int(m))
+	p := make([]byte, m)
+	_, err = io.ReadFull(r, p)
 	if err != nil {
 		return fmt.Errorf("name too short: %w", err)
 	}
-	r.Discard(int(m))
 	prog.name = string(p)
 
 	m, err = uvarintFromBuf(r)
